@@ -53,7 +53,7 @@ def r1(ctx):
     ok = u(gen.generators[0].iter) == phase_p and not gen.generators[0].ifs
     ctx.ob(hp.qual, "hp-one-item-per-allele-in-phase-order", ok, hp.loc(st[0].stmt), "one HP item per element of the phase tuple, in order" if ok else "HP items are not generated per element of `%s`" % phase_p)
     parts = _fstring_parts(gen.elt) if isinstance(gen.elt, ast.JoinedStr) else []
-    ok = len(parts) == 3 and parts[0][0] == "expr" and parts[1][0] == "lit" and parts[2][0] == "expr"
+    ok = (None if not parts else (len(parts) == 3 and parts[0][0] == "expr" and parts[1][0] == "lit" and parts[2][0] == "expr"))
     ctx.require(ok, "HP item is not f'{a}<lit>{b}'")
     w_first, w_sep, w_second = parts[0][1], parts[1][1], parts[2][1]
     allele_v = u(gen.generators[0].target)
@@ -191,7 +191,7 @@ def r2(ctx):
     loop = loops[0]
     rec = u(loop.target)
     calls = [c for c in ctx.prog.calls_in(loop) if isinstance(c.func, ast.Attribute) and c.func.attr == "_remove_existing_phasing" and u(c.func.value) == "self"]
-    ok = len(calls) == 1 and u(calls[0].args[0]) == rec
+    ok = (None if not calls else (len(calls) == 1 and u(calls[0].args[0]) == rec))
     probs = util.check_loop_conservation(cfg, loop, lambda n: cfg.kind(n) == "stmt" and calls and any(x is calls[0] for x in ast.walk(cfg.ast(n)))) if ok else [("skip", [])]
     skips = [p for k, p in probs if k == "skip"]
     ctx.ob(w.qual, "old-phase-removed-from-every-record", ok and not skips, w.loc(calls[0]) if calls else w.loc(loop), "_remove_existing_phasing(record, ...) is passed on every path through the record loop, including records that are skipped afterwards" if ok and not skips else "a record can be written without passing _remove_existing_phasing", cfg.describe_path(skips[0]) if skips else None)
@@ -311,7 +311,7 @@ def r3(ctx):
     cfg = ctx.cfg(w)
     setter = [c for c in ctx.prog.calls_in(w.node) if u(c.func) == "self._set_phasing_tags"]
     rmc = [c for c in ctx.prog.calls_in(w.node) if u(c.func) == "self._remove_existing_phasing"]
-    ok = len(setter) == 1 and len(rmc) == 1 and cfg.dominates(cfg.node_containing(rmc[0]), cfg.node_containing(setter[0]))
+    ok = (None if not setter else (len(setter) == 1 and len(rmc) == 1 and cfg.dominates(cfg.node_containing(rmc[0]), cfg.node_containing(setter[0]))))
     ctx.ob(w.qual, "normalisation-dominates-setter", ok, w.loc(setter[0]) if setter else w.loc(), "the removal/normalisation dominates the tag setter" if ok else "the tag setter can run without the removal/normalisation before it")
     # ... and nothing re-writes GT in another order between the normalisation and the setter: _set_HP lists its items in
     # GT order and the decoder reads them as a permutation of an ascending GT (Genotype.as_vector() is DEscending)
@@ -382,7 +382,7 @@ def r4(ctx):
     slots_ok = True
     if cin is not None:
         slots_ok = util.params_of(cin.node)[1:5] == want
-    ok = len(rc) == 1 and slots_ok and [u(a) for a in rc[0].args[1:4]] == ["mapq", "source_id", "numeric_sample_id"] and all(p in util.params_of(fi.node) for p in ("mapq", "source_id", "numeric_sample_id"))
+    ok = (None if not rc else (len(rc) == 1 and slots_ok and [u(a) for a in rc[0].args[1:4]] == ["mapq", "source_id", "numeric_sample_id"] and all(p in util.params_of(fi.node) for p in ("mapq", "source_id", "numeric_sample_id"))))
     ctx.ob(fi.qual, "pseudo-read-identity", ok, fi.loc(rc[0]) if rc else fi.loc(), "pseudo reads are created as Read(name, mapq, source_id, numeric_sample_id): they belong to the requested sample and to the VCF's source id" if ok else "the pseudo read is created as %s: its sample/source identity is not the caller's (reads are attributed to another individual)" % (u(rc[0]) if rc else "?"))
     ys = [n for n in walk_function(fi.node) if isinstance(n, ast.Expr) and isinstance(n.value, ast.Yield)]
     ok = len(ys) == 1
